@@ -687,8 +687,16 @@ func topkTie(c *Case) bool {
 		}
 		for _, vs := range groups {
 			seen := map[float64]bool{}
+			nans := 0
 			for _, v := range vs {
-				if v != v || seen[v] {
+				if v != v {
+					nans++ // one NaN is simply the lowest value; two are a tie
+					if nans > 1 {
+						found = true
+					}
+					continue
+				}
+				if seen[v] {
 					found = true
 				}
 				seen[v] = true
